@@ -6,3 +6,12 @@ import CardVerif.Props.C13
 #print axioms CardVerif.C13.terminates
 #print axioms CardVerif.C13.no_internal_error_B
 #print axioms CardVerif.C13.no_internal_error_f53
+#print axioms CardVerif.C13.no_internal_error_on
+#print axioms CardVerif.C13.no_internal_error_on_B
+#print axioms CardVerif.C13.no_internal_error_on_f53
+#print axioms CardVerif.C13.no_internal_error_nlhe
+#print axioms CardVerif.C13.no_internal_error_nlhe_f53
+#print axioms CardVerif.C13.no_internal_error_nlhe_brute
+#print axioms CardVerif.C13.no_internal_error_nlhe_brute_f53
+#print axioms CardVerif.C13.no_internal_error_plo_brute
+#print axioms CardVerif.C13.no_internal_error_plo_brute_f53
